@@ -262,7 +262,9 @@ def kill_task(args):
             calls[i] += 1
             return {'i': i, 'by': 'parent', 'blob': 'x' * 50}
         prob = None
+        from vf import observe
         try:
+          with observe.deadline(60):       # a reader that never returns (e.g. waits for something the dead writer held)
             ds = lazy_dataset.new({'a': 0, 'b': 1, 'c': 2}).map(up).diskcache(cache_dir=d, reuse=True, clear=True)
             for i in range(N):
                 v = ds[i]
@@ -277,6 +279,8 @@ def kill_task(args):
                     break
             del ds
             gc.collect()
+        except observe.Timeout:
+            prob = ('reopened-cache-hangs', f'after a kill at call {k} reading the reopened cache did not return within 60 s')
         except Exception as e:      # noqa: BLE001
             prob = (f'reopen-raises/{type(e).__name__}', f'after a kill at call {k}: {str(e)[:100]}')
         return order, k, ntrace, prob, acked + ([] if killed else ['(not killed)'])
